@@ -1479,6 +1479,20 @@ mod convert {
             if min_len > 1 && !self.address_offset().is_multiple_of(min_len) {
                 return Err(ConvertError::UnsupportedLineInstruction);
             }
+            // The writer calculates the operation advance from the start of the sequence.
+            let max_ops = u64::from(
+                self.program
+                    .line_encoding
+                    .maximum_operations_per_instruction,
+            );
+            if max_ops > 1
+                && (self.address_offset() / min_len.max(1))
+                    .checked_mul(max_ops)
+                    .and_then(|advance| advance.checked_add(self.from_row.op_index()))
+                    .is_none()
+            {
+                return Err(ConvertError::UnsupportedLineInstruction);
+            }
             Ok(())
         }
 
